@@ -1,4 +1,4 @@
-import DoitModel.Proofs.C09Wait
+import DoitModel.Proofs.C09WaitP
 /-! # C09 — every run terminates; dependency cycles are diagnosed, never hung on
 
 Property theorems only (model: `Model/Run.lean`, `Model/RunC09.lean`; invariants: `Proofs/Run*.lean`, `Proofs/C09*.lean`).
@@ -73,15 +73,21 @@ theorem C09_no_false_cycle_serial (inp : RunInput) (hser : inp.runner = .serial)
   obtain ⟨rank, hrk⟩ := hac
   exact serial_no_cyclic hser hrk hr
 
-/-- the full statement: on an acyclic graph no reachable state has the dispatcher ended by the cyclic error.
-    NOT proved as a whole.  Proved: the `ancestors` test never fires (`C09_no_false_cycle_ancestors_*`), and in the
-    `_check_deadlock` state some parked node awaits only unparked tasks (`C09_some_parked_node_awaits_unparked`).
-    Missing link (invariants I5/I6 of DESIGN §4 for `waiting_me` / `dispatched`, not yet proved over the model): in
-    `DeadlockShape` every awaited task is itself parked — an awaited task is created and unfinished, and an unfinished
-    node that is neither current, ready nor out at the runner is parked with a non-empty wait set.  The monitor
-    evaluates the full statement on every implementation run. -/
-def C09_no_false_cycle_full : Prop :=
-  ∀ inp : RunInput, Acyclic inp → ∀ s, (Reach inp s ∨ PReach inp s) → ∀ d, s.susp ≠ some (.cyclic d)
+/-- C09 (no false cycle), parallel runners (`MRunner` / `MThreadRunner`), FULL: the same for every worker interleaving
+    and every `numProcess`.  Additionally uses the flight accounting `InvF` (a task whose job is queued, held, executed
+    or whose result is queued is in `dispatched`), so that in the `_check_deadlock` state nothing is in flight. -/
+theorem C09_no_false_cycle_parallel (inp : RunInput) (hac : Acyclic inp) (s : Sys) (hr : PReach inp s) :
+    (∀ d, s.susp ≠ some (.cyclic d)) ∧ s.halt ≠ .cyclic := by
+  obtain ⟨rank, hrk⟩ := hac
+  exact parallel_no_cyclic hrk hr
+
+/-- C09, "if the closure contains no cycle, no cycle error is raised", all three runners: in no reachable state of an
+    acyclic input has `run_tasks` been left by the cyclic-dependency error, so the exit code is never 3 on its account -/
+theorem C09_no_false_cycle (inp : RunInput) (hac : Acyclic inp) (s : Sys)
+    (hr : (inp.runner = .serial ∧ Reach inp s) ∨ PReach inp s) : s.halt ≠ .cyclic := by
+  rcases hr with ⟨a, b⟩ | b
+  · exact (C09_no_false_cycle_serial inp a hac s b).2
+  · exact (C09_no_false_cycle_parallel inp hac s b).2
 
 /-! ### "hold on" -/
 
